@@ -46,10 +46,11 @@ def plan(tier):
             fn = "c21_array_elems_k%d_count%d" % (k, count)
             gen.append("vk_proof! {\n" + ATTR % (4 * k + 8) + STUBS + "fn %s() { array_elems::<%d>(%d); }\n}\n" % (fn, k, count))
             p.add(MOD, H(fn, {"frame": "array", "declared_count": count, "elements_received": k, "element": "+x CRLF, x symbolic"}, "array_elems"))
-    for d in ((6, 20) if tier == "quick" else (6, 12, 19, 20, 21)):
+    for d in ((6, 12) if tier == "quick" else (6, 12, 19, 20)):
         for kind, call in (("array", "array_huge_count"), ("bulk", "bulk_huge_count")):
             fn = "c21_%s_count_%ddigits" % (kind, d)
-            gen.append("vk_proof! {\n" + ATTR % (d + 5) + STUBS + "fn %s() { %s::<%d>(); }\n}\n" % (fn, call, d))
+            gen.append("vk_proof! {\n" + ATTR % (d + 5) + STUBS + "#[kani::stub(std::alloc::alloc, vk_alloc)]\n"
+                       + "fn %s() { %s::<%d>(); }\n}\n" % (fn, call, d))
             p.add(MOD, H(fn, {"frame": "%s header only" % kind, "count": "%d symbolic decimal digits (first may be a sign)" % d}, "huge_count"))
     gen.append("vk_proof! {\n" + ATTR % 8 + "fn c21_nesting_limit() { nesting_limit(); }\n}\n")
     p.add(MOD, H("c21_nesting_limit", {"nesting": "at the declared limit, one below it, and propagation to an inner array"}, "nesting"))
@@ -61,9 +62,11 @@ def plan(tier):
         "compositional: family `readline` checks the real read_line against its specification on every buffer of n bytes; "
         "all other families stub read_line (kani::stub) with that specification, the CRLF position being part of the shape "
         "(assumed as 'first CRLF of the remaining buffer is here / there is none'), every other byte symbolic over all 256 values",
-        "allocation monitor: std::alloc::dealloc stubbed by a recorder of the largest block released (temporaries of the decoder "
-        "are released before it returns; returned vectors are inspected through capacity()); "
-        "the bound asserted is 64 + 40 x bytes received (a RespValue is 32 bytes and an element needs 3 bytes on the wire)",
+        "allocation monitor (header-only `huge_count` family): std::alloc::alloc stubbed by a recorder of the largest single "
+        "request (forwarding to alloc_zeroed); the native replay measures the same number with a counting global allocator. "
+        "The bound asserted is 64 + 40 x bytes received (a RespValue is 32 bytes, an element needs 3 bytes on the wire). In the "
+        "other families the recorder is not installed (with it Kani 0.68 reports spurious layout mismatches on BytesMut's "
+        "release path); there, returned vectors are bounded through capacity()",
         "core::fmt::write / std::fmt::format stubbed (error messages are not the subject); drop glue skipped",
         "stack depth itself is not modelled by CBMC: unbounded recursion is covered through the declared nesting limit "
         "(one level beyond it must be refused, and the limit must be <= 128)",
@@ -72,7 +75,7 @@ def plan(tier):
                "byte, with and without CRLF; bulk: <= 2 header bytes (any bytes: signs, digits, garbage) + <= %d arbitrary bytes "
                "after the header; arrays: <= 2 header bytes x <= %d element slots of symbolic type; array and bulk headers of 6..%d "
                "decimal digits (optionally signed) with nothing after them; nesting limit + 1" % (maxn, 4 if tier == "quick" else 5,
-                                                                              2 if tier == "quick" else 3, 20 if tier == "quick" else 21))
+                                                                              2 if tier == "quick" else 3, 12 if tier == "quick" else 20))
     p.not_covered = ("longer frames; inline commands (quick tier: the tokenizer over symbolic characters does not finish in the budget); "
                      "arrays whose elements are not simple strings, nested arrays with symbolic content; real stack exhaustion")
     p.per_harness_timeout = 400 if tier == "quick" else 1500
